@@ -346,3 +346,40 @@ example : cookieHeaderText (attached (runHdr (fun _ => none) [] [.resp 0 (s "exa
 example : IPNotion := stdIPNotion
 
 end MitmVerif.Props.C54
+
+/-! ### round-6 cross-audit: further non-vacuity witnesses (appended by the auditor, no statement changed) -/
+namespace MitmVerif.Props.C54
+open MitmVerif MitmVerif.C54
+
+-- `expired_removed` on its non-trivial branch: two cookies under one key, one is expired — the dict stays, without it
+-- (the example in the file above empties the jar, where the ∀ d of the theorem ranges over nothing)
+private def twoHist : List Event :=
+  [ .resp (s "a.example.com") 80 [ck "sid" "1" [("Domain", ".example.com")] false, ck "lang" "en" [("Domain", ".example.com")] false] ]
+example : runJar [] (twoHist ++ [.resp (s "a.example.com") 80 [ck "sid" "" [("Domain", ".example.com")] true]]) =
+    [(⟨s ".example.com", 80, [slash]⟩, [(s "lang", some (s "en"))])] := by decide +kernel
+example : implDomainMatch (s "a.example.com") (ckey (ck "sid" "" [("Domain", ".example.com")] true) (s "a.example.com") 80).domain = true := by
+  decide +kernel
+-- `attached_only_if_spec_match` applied to a concrete attachment (its hypothesis holds; stdIPNotion is an IPNotion)
+example : ∃ rhost rport cs c, Event.resp rhost rport cs ∈ hist ∧ c ∈ cs ∧ c.name = s "sid" ∧ c.value = some (s "1") ∧ c.expired = false ∧
+    rport = 80 ∧ domainMatch6265 stdIP (s "b.example.com") (ckey c rhost rport).domain = true ∧
+    domainMatch6265 stdIP rhost (ckey c rhost rport).domain = true ∧
+    pathMatch6265 (uriPath (s "/foo/bar?x")) (ckey c rhost rport).path = true :=
+  (attached_only_if_spec_match stdIPNotion hist true (s "b.example.com") 80 (s "/foo/bar?x") (s "sid") (some (s "1"))
+    (by decide +kernel)).2
+-- `foreign_domain_not_stored` applied: the hypothesis (RFC says no) holds for the evil host of `hist`
+example : setCookie (runJar [] twoHist) (s "x.example.com.evil.org") 80 (ck "sid" "evil" [("Domain", ".example.com")] false) =
+    runJar [] twoHist :=
+  foreign_domain_not_stored stdIPNotion _ _ _ _ (by decide +kernel)
+-- `attached_is_latest_unexpired`: an overwritten value is not sent any more, only the last one
+example : attached (runJar [] (twoHist ++ [.resp (s "b.example.com") 80 [ck "sid" "2" [("Domain", ".example.com")] false]]))
+    true (s "c.example.com") 80 (s "/") = [(s "sid", some (s "2")), (s "lang", some (s "en"))] := by decide +kernel
+example : lastWrite (twoHist ++ [.resp (s "b.example.com") 80 [ck "sid" "2" [("Domain", ".example.com")] false]])
+    ⟨s ".example.com", 80, [slash]⟩ (s "sid") = some (some (s "2")) := by decide +kernel
+-- `max_age_nonpositive_is_expired` applied (hypotheses hold together): Max-Age=-5 with a far-future Expires
+example : isExpired 1000 (at' [("Expires", some "x"), ("Max-Age", some "-5")]) (some 999999) = true :=
+  max_age_nonpositive_is_expired 1000 _ _ (s "-5") (-5) (by decide +kernel) (by decide +kernel) (by decide)
+-- note for the owner (spec corner, harmless): an EMPTY Domain value makes the Lean RFC spec say "match" for every non-IP
+-- host that ends in a dot, while the code (and a host-only reading of RFC 6265 §5.2.3) says no
+example : domainMatch6265 stdIP (s "example.com.") [] = true ∧ implDomainMatch (s "example.com.") [] = false := by decide +kernel
+
+end MitmVerif.Props.C54
